@@ -1,0 +1,25 @@
+//! Test-only instrumentation used by the external verification harness.
+//!
+//! Compiled only with the `verif` cargo feature. Nothing in here changes behaviour:
+//! `point` calls a hook installed by the harness (and does nothing when none is
+//! installed), the accessors elsewhere in the crate only read sizes.
+
+use std::sync::{Arc, RwLock};
+
+type Hook = Arc<dyn Fn(&'static str) + Send + Sync>;
+
+static HOOK: RwLock<Option<Hook>> = RwLock::new(None);
+
+/// Install (or remove) the function called at every schedule point.
+pub fn set_schedule_hook(hook: Option<Hook>) {
+    *HOOK.write().expect("verif hook lock poisoned") = hook;
+}
+
+/// A named schedule point. The harness may block the calling thread here.
+#[inline]
+pub fn point(name: &'static str) {
+    let hook = HOOK.read().expect("verif hook lock poisoned").clone();
+    if let Some(hook) = hook {
+        hook(name);
+    }
+}
